@@ -21,7 +21,9 @@ META = dict(
               "and the store of every counter update); depth = total thread steps (complete "
               "for loop-free threads)",
     bounds=dict(quick="configurations 2R+1W, 1R+2W, 3R, 2W x 1 round; 1R+1W x 2 rounds",
-                thorough="plus 3R+2W x 1 round, 2R+2W x 2 rounds, 3R+1W x 2 rounds"),
+                thorough="plus 2R+2W, 3R+1W x 1 round; 1R+2W, 2R+1W x 2 rounds (3R+2W x 1 and the "
+                         "4-thread x 2-round configurations came back `unknown` after 600 s per "
+                         "query and are outside the claim)"),
     stubs=["threading.Lock: non-reentrant mutex; acquire blocks while held; release of a free "
            "mutex is an error (RuntimeError in CPython)"],
     outside=["more threads / rounds than listed", "timeouts, non-blocking acquire, re-entrancy",
@@ -347,7 +349,8 @@ def jobs(tier, seed):
     cfgs = [(("R", "R", "W"), 1), (("R", "W", "W"), 1), (("R", "R", "R"), 1), (("W", "W"), 1),
             (("R", "W"), 2)]
     if tier != "quick":
-        cfgs += [(("R", "R", "R", "W", "W"), 1), (("R", "R", "W", "W"), 2), (("R", "R", "R", "W"), 2)]
+        cfgs += [(("R", "R", "W", "W"), 1), (("R", "R", "R", "W"), 1), (("R", "W", "W"), 2),
+                 (("R", "R", "W"), 2)]
     for roles, rounds in cfgs:
         js.append(Job("bmc/%sx%d" % ("".join(roles), rounds), "harness.c20:bmc", roles=roles, rounds=rounds))
     return js
